@@ -895,7 +895,8 @@ def rt_case(env, seed, res, case_ref):
         su.uninstall()
 
 
-def _rt_case(env, seed, res, case_ref, HandshakePair, CLIENT_ADDR, SERVER_ADDR):
+def _rt_case(env, seed, res, case_ref, HandshakePair, CLIENT_ADDR, SERVER_ADDR, capture=None):
+    """capture: optional list that receives the two Endpoint objects (C20 compares their outcomes across runs)"""
     rng = random.Random(seed)
     wt = rng.random() < 0.4
     pair = HandshakePair(opts={"alpn": ["h3"]}).complete()
@@ -904,6 +905,8 @@ def _rt_case(env, seed, res, case_ref, HandshakePair, CLIENT_ADDR, SERVER_ADDR):
     hs = env.H3Connection(pair.server, enable_webtransport=wt)
     C = Endpoint("client", pair.client, hc, res, case_ref)
     S = Endpoint("server", pair.server, hs, res, case_ref)
+    if capture is not None:
+        capture.extend([C, S])
     exp_c2s, exp_s2c = Expect(), Expect()
     capp = SenderApp(hc, pair.client, rng, exp_c2s, res, case_ref)
     sapp = SenderApp(hs, pair.server, rng, exp_s2c, res, case_ref)
